@@ -103,7 +103,23 @@ pub fn judge(call: usize, a: [f64; 2], b: [f64; 2], l: Option<&mut Local>) -> Ve
     Verdict::Pass
 }
 
+pub fn hist_judge(c: &crate::hist::HCall, l: Option<&mut Local>) -> Verdict {
+    use crate::api::Op;
+    let k = match c.as_op() {
+        Some(Op::mul) => 0,
+        Some(Op::mul_assign) => 1,
+        Some(Op::mul_f) => 2,
+        Some(Op::mul_assign_f) => 3,
+        Some(Op::f_mul) => 4,
+        _ => return Verdict::Skip,
+    };
+    judge(k, c.a, c.b, l)
+}
+
 pub fn replay(call: &str, _clause: &str, args: &[u64]) -> Verdict {
+    if call == "hist" {
+        return crate::hist::replay(args, &hist_judge);
+    }
     let ci = CALLS.iter().position(|c| *c == call).expect("unknown call");
     judge(ci, [f64::from_bits(args[0]), f64::from_bits(args[1])], [f64::from_bits(args[2]), f64::from_bits(args[3])], None)
 }
@@ -266,5 +282,12 @@ pub fn run(r: &mut Runner) {
                 }
             }
         });
+    }
+    {
+        use crate::api::Op;
+        let pairs = [([1.5, 1e-17], [1.25, -3e-18]), ([3.0, 2f64.powi(-53)], [0.1, 5e-18]), ([2f64.powi(100), 1.0], [7.0, 0.0])];
+        let mut groups = crate::hist::binary_groups(&[Op::mul, Op::mul_assign], &pairs);
+        groups.extend(crate::hist::binary_groups(&[Op::mul_f, Op::f_mul], &pairs[..2]));
+        crate::hist::explore(r, "histories: * (operand orders, signs, assign forms)", &groups, 3, &hist_judge, 14u64 << 55);
     }
 }
